@@ -81,7 +81,7 @@ func validFoldCommands(maxLen int) []string {
 
 // c15WordAlphabet: whole words as symbols - the namespace and command names of the UCAN specifications, a
 // segment that is a combining mark or starts with one, a zero-width joiner, a non-breaking space.
-var c15WordAlphabet = []string{"/", "ucan", "revoke", "x", "\u0301", "msg", "\u200d", "\u00a0"}
+var c15WordAlphabet = []string{"/", "ucan", "revoke", "x", "\u0301", "msg", "\u200d", "\u00a0", "\ufeff"}
 
 func validWordCommands(maxLen int) []string {
 	if v, ok := validCmdMemo.Load(1000 + maxLen); ok {
@@ -190,7 +190,7 @@ func C15() *engine.Check {
 		}
 	}
 	parse := mkParse("parse", "{/,a,b,A,é,É}", c15Alphabet, 6, 8)
-	parseWords := mkParse("parse-well-known-names-and-marks", "the words {/, ucan, revoke, x, msg} and the characters {U+0301 combining acute, U+200D zero-width joiner, U+00A0 no-break space} as symbols", c15WordAlphabet, 6, 7)
+	parseWords := mkParse("parse-well-known-names-and-marks", "the words {/, ucan, revoke, x, msg} and the characters {U+0301 combining acute, U+200D zero-width joiner, U+00A0 no-break space, U+FEFF byte order mark} as symbols", c15WordAlphabet, 5, 6)
 	parseFold := mkParse("parse-case-fold-classes", "{/, s, ſ (long s), σ, ς (final sigma), ǆ, ǅ (title case), K (Kelvin sign)}", c15FoldAlphabet, 5, 6)
 
 	mkPairs := func(name, alphaDesc string, cmdsOf func(n int) []string, q, t int) *engine.Sub {
@@ -263,7 +263,7 @@ func C15() *engine.Check {
 		}
 	}
 	pairs := mkPairs("covers-pairs", "{/,a,b,A,é,É}", validCommands, 6, 7)
-	pairsWords := mkPairs("covers-pairs-well-known-names-and-marks", "the words {/, ucan, revoke, x, msg} and {U+0301, U+200D, U+00A0} as symbols (segments that are or start with a combining mark; the /ucan namespace)", validWordCommands, 4, 5)
+	pairsWords := mkPairs("covers-pairs-well-known-names-and-marks", "the words {/, ucan, revoke, x, msg} and {U+0301, U+200D, U+00A0, U+FEFF} as symbols (segments that are or start with a combining mark; the /ucan namespace)", validWordCommands, 4, 5)
 	pairsFold := mkPairs("covers-pairs-case-fold-classes", "{/, s, ſ, σ, ς, ǆ} (lower-case letters that are case-fold partners)", validFoldCommands, 4, 5)
 
 	triples := &engine.Sub{
@@ -311,10 +311,11 @@ func C15() *engine.Check {
 
 	join := &engine.Sub{
 		Name:  "join-segments",
-		Rule:  "every valid command of <=4 symbols x every list of <=3 segments from {a,b,ab,''}: Segments(c.Join(s...)) = Segments(c) ++ non-empty s, result valid; New(s...) = Top().Join(s...); non-trivial = at least one non-empty segment",
-		Bound: func(t string) string { return "command length<=4 symbols, <=3 segments from 4" },
+		Rule:  "every valid command of <=4 symbols x every list of <=3 segments from {a,b,ab,'',..,.} (dot segments are appended like any other): Segments(c.Join(s...)) = Segments(c) ++ non-empty s, result valid; New(s...) = Top().Join(s...); non-trivial = at least one non-empty segment",
+		Bound: func(t string) string { return "command length<=4 symbols, <=3 segments from 6" },
 		Gen: func(tier string, emit func(any) bool) {
-			segAlpha := []string{"a", "b", "ab", ""}
+			// (".." and "." are segments like any other: joining is appending, not path navigation)
+			segAlpha := []string{"a", "b", "ab", "", "..", "."}
 			for _, c := range validCommands(4) {
 				var rec func(cur []string) bool
 				rec = func(cur []string) bool {
